@@ -189,6 +189,29 @@ def filter_scenarios(n, seed, batches=(1, 2, 3, 5, BIG)):
     return out
 
 
+def reuse_scenarios(n, seed, batches=(1, 2, 3, 5, BIG)):
+    """one data-holder object used in phases: ingest some spans, stream, ingest more (new traces, late children of
+    spans that were leaves at the first stream, late parents), stream again"""
+    rnd = random.Random(repr(("c12r", seed)))
+    shp = shapes(4)
+    out = []
+    for k in range(n):
+        nt = rnd.randrange(2, 5)
+        per = []
+        for i in range(nt):
+            name = "n%d" % (1 + rnd.randrange(2))
+            per.append(tree_spans(rnd.choice(shp), "j%d" % (i + 1), name, "t%d_" % (i + 1), t0=2 + rnd.randrange(3)))
+        # parents before their children in every trace (pre-order, traces interleaved): whatever the cut points, the
+        # store never holds a span whose parent is missing, so every stream reads a store of whole, consistent trees
+        st = interleave(rnd, per) if k % 3 else [s for p in per for s in p]
+        nph = 2 if k % 4 else 3
+        cuts = sorted(rnd.sample(range(1, len(st)), min(nph - 1, len(st) - 1))) if len(st) > 1 else []
+        phases = [st[a:b] for a, b in zip([0] + cuts, cuts + [len(st)])]
+        out.append({"B": rnd.choice(batches), "buf": 0,
+                    "runs": [{"ing": True, "ug": False, "spans": st, "phases": phases}]})
+    return out
+
+
 def small_forests_exhaustive(maxnodes=3, batches=(1, 2, BIG)):
     """all multisets of one or two shapes with <= maxnodes nodes, same workflow name and different names"""
     shp = shapes(maxnodes)
